@@ -42,6 +42,10 @@ def value_to_satoshi(value, network=None):
         if network and value.network != network:
             raise ValueError("Value uses different network (%s) then supplied network: %s" % (value.network.name, network))
         value = value.value_sat
+    elif isinstance(value, float):
+        if not value.is_integer():
+            raise ValueError("Numeric value must be a whole number of the smallest denominator, got %s" % value)
+        value = int(value)
     return value
 
 
